@@ -26,7 +26,7 @@ func scenario(t *testing.T, idx int64, r *rand.Rand) {
 	var ops []string
 	checks, fullRefusals, bursts := 0, 0, 0
 	bad := false
-	synctest.Test(t, func(t *testing.T) {
+	bubble(t, func(t *testing.T) {
 		w := blk.NewWorld(k, capacity)
 		held := w.Hold(capacity)
 		if yields > 0 { // widen the check->push and push->select windows
@@ -170,4 +170,9 @@ func TestCheck(t *testing.T) {
 		rt.Case()
 		scenario(t, idx, r)
 	})
+}
+
+// bubble runs f in a synctest bubble; a bubble that cannot end (goroutines left blocked) is recorded, not fatal.
+func bubble(t *testing.T, f func(*testing.T)) {
+	rt.Bubble(func() { synctest.Test(t, f) }, "C12")
 }
